@@ -82,8 +82,8 @@ func c18mCheck(c *c18mCase, base string) *vh.Failure {
 			continue
 		}
 		ts := time.Unix(0, ce.E.Nano).Format(time.RFC3339)
-		want = append(want, []string{fmt.Sprintf("%d.0", ce.E.Id), ce.E.Addr, fmt.Sprintf("0x%x", ce.E.Session), ts, ce.E.Data})
-		if msgs, ok := outputStream.Get(robust.Id{Id: ce.E.Id}); ok {
+		want = append(want, []string{fmt.Sprintf("%d.0", robust.IdFromRaftIndex(ce.E.Id)), ce.E.Addr, fmt.Sprintf("0x%x", robust.IdFromRaftIndex(ce.E.Session)), ts, ce.E.Data})
+		if msgs, ok := outputStream.Get(robust.Id{Id: robust.IdFromRaftIndex(ce.E.Id)}); ok {
 			for _, m := range msgs {
 				want = append(want, []string{fmt.Sprintf("%d.%d", m.Id.Id, m.Id.Reply), "", "", ts, m.Data})
 			}
